@@ -22,7 +22,8 @@ type reader struct {
 }
 
 type writer struct {
-	Lens []int `json:"lens"`
+	Lens    []int `json:"lens"`
+	DelayUs int   `json:"delayUs,omitempty"` // waits this long first (every reader is blocked by then)
 }
 
 type dlOp struct {
@@ -70,6 +71,15 @@ func gen(r *harn.Rng, tier string) interface{} {
 	}
 	if r.Bool(0.2) {
 		sc.SeqPrefill = r.Range(1, 4)
+	}
+	if r.Bool(0.004) {
+		// a crowd: more goroutines waiting in Read than a byte-sized counter can hold
+		sc.Readers = nil
+		for i, n := 0, 256+r.Pick(0, 0, 0, 1, 2, 256); i < n; i++ {
+			sc.Readers = append(sc.Readers, reader{Reads: 1})
+		}
+		sc.Writers = []writer{{Lens: []int{r.Pick(4, 100), 16}[:r.Range(1, 2)], DelayUs: r.Pick(0, 1000, 1000)}}
+		sc.CloseEarly, sc.WriterCloses, sc.Deadline, sc.SeqPrefill = false, 0, nil, 0
 	}
 	return sc
 }
@@ -198,6 +208,9 @@ func run(env *simrt.Env, sci interface{}) {
 	for i := range sc.Writers {
 		i := i
 		others = append(others, env.Go(fmt.Sprintf("writer%d", i), func() {
+			if d := sc.Writers[i].DelayUs; d > 0 {
+				env.Sleep(time.Duration(d) * time.Microsecond)
+			}
 			for k, p := range plans[i].pkts {
 				cp := append([]byte(nil), p...)
 				_, err := b.Write(cp)
@@ -375,7 +388,7 @@ func shrinkSc(sci interface{}) []interface{} {
 		c.Readers = append([]reader(nil), sc.Readers...)
 		c.Writers = nil
 		for _, w := range sc.Writers {
-			c.Writers = append(c.Writers, writer{Lens: append([]int(nil), w.Lens...)})
+			c.Writers = append(c.Writers, writer{Lens: append([]int(nil), w.Lens...), DelayUs: w.DelayUs})
 		}
 		c.Deadline = append([]dlOp(nil), sc.Deadline...)
 		return &c
